@@ -189,7 +189,7 @@ Definition disturbs (p : Z) (op : rop) : bool :=
   | RawRec q _ => q =? p
   | Deliver (MReq q _) => q =? p
   | Deliver MCancel => true
-  | MAssign _ pcs => memZ p (map fst pcs)
+  | MAssign _ _ => true
   | _ => false
   end.
 Fixpoint split_at_req (p : Z) (ops : list rop) : option (Z * Z * list rop) :=
